@@ -218,6 +218,17 @@ static void apply(const struct op *o, struct mstate *m) {
         case 2: st = polyseed_decode("xxx xxx", 0, &lo, &d); want = ST_NUM_WORDS; break;
         case 3: st = polyseed_decode_explicit("qq qq qq qq qq qq qq qq qq qq qq qq qq qq qq qq", 0, polyseed_get_lang(5), &d); want = ST_LANG; break;
         case 4: st = polyseed_decode(phr, 5, &lo, &d); want = ST_CHECKSUM; break;      /* right phrase, wrong coin */
+        case 9: {           /* a valid English phrase typed with no-break and ideographic spaces: only the injected NFKD makes it readable, for both decoders */
+            static char typed[2048]; static int have3;
+            if (!have3) { have3 = 1; char en[2048]; ref_phrase(&fixed, 0, 0, en, 0); char *o2 = typed; int k = 0; for (const char *q = en; *q; q++) { if (*q == ' ') { const char *sp = (k++ & 1) ? "\xC2\xA0" : "\xE3\x80\x80"; strcpy(o2, sp); o2 += strlen(sp); } else *o2++ = *q; } *o2 = 0; }
+            alloc_expected = 1;
+            polyseed_data *da = (polyseed_data *)(uintptr_t)0xBEEF; int sa = polyseed_decode(typed, 0, &lo, &da); int wa = m->armed && E.alloc_seq > 0 ? ST_MEMORY : ref_decode(typed, 0, -1, m->mask, 0, CAP, NULL, NULL);
+            if (sa == POLYSEED_OK) { uint8_t g[32]; polyseed_store(da, g); polyseed_free(da); if (memcmp(g, img, 32)) BADV("c13:typed-phrase:seed", "%s: automatic detection restored another seed", o->name); }
+            if (!(m->armed && E.alloc_seq > 0)) { if (sa != wa) { snprintf(k, sizeof k, "c13:status:%s:auto", o->name); BADV(k, "%s through automatic detection returned %d, model %d", o->name, sa, wa); }
+                st = polyseed_decode_explicit(typed, 0, polyseed_get_lang(0), &d); want = (m->armed && E.alloc_seq > 0) ? ST_MEMORY : ref_decode(typed, 0, 0, m->mask, 0, CAP, NULL, NULL);
+                if (st == POLYSEED_OK) { uint8_t g[32]; polyseed_store(d, g); if (memcmp(g, img, 32)) BADV("c13:typed-phrase:seed", "%s: decode_explicit restored another seed", o->name); } }
+            else { st = sa; want = wa; }
+        } break;
         case 7: case 8: {   /* every single space is a boundary: a valid phrase with one space doubled has seventeen words (one of them empty); fifteen words with a
                              * doubled space are sixteen, one of which no list has */
             static char dbl[2][2048]; static int have2;
@@ -444,7 +455,7 @@ static void build_profile(void) {
         add_op(O_BADCALL, 0, 0, 0, "load(bad-checksum)"); add_op(O_BADCALL, 1, 0, 0, "load(bad-header)"); add_op(O_BADCALL, 2, 0, 0, "decode(two-words)");
         add_op(O_BADCALL, 3, 0, 0, "decode_explicit(unknown-words)"); add_op(O_BADCALL, 4, 0, 0, "decode(wrong-coin)");
         add_op(O_BADCALL, 5, 0, 0, "decode(ambiguous en/fr phrase)"); add_op(O_BADCALL, 6, 0, 0, "decode(ambiguous zh_s/zh_t phrase)");
-        add_op(O_BADCALL, 7, 0, 0, "decode(valid phrase, one space doubled)"); add_op(O_BADCALL, 8, 0, 0, "decode_explicit(fifteen words, one space doubled)");
+        add_op(O_BADCALL, 7, 0, 0, "decode(valid phrase, one space doubled)"); add_op(O_BADCALL, 8, 0, 0, "decode_explicit(fifteen words, one space doubled)"); add_op(O_BADCALL, 9, 0, 0, "decode + decode_explicit(valid English phrase typed with U+3000 / U+00A0 spaces)");
     } else if (P_FEAT) {
         NSLOT = 1; PASSWORDS[0] = "pw"; NPW = 1;
         RECODES[0] = (struct recv){ 0, 5, 0 }; RECODES[1] = (struct recv){ 3, 5, 1 }; NREC = 2;
